@@ -377,7 +377,13 @@ pub fn f_consumers(seed: u64, cancel: bool) -> Plan {
                 0 | 1 => {
                     let my = slot;
                     slot += 1;
-                    s.push(Step::after(rng.below(3) * rng.below(2_000), Op::PullBg { slot: my, sub: sub.clone(), max: *rng.pick(&[1i32, 1, 2, 1000]) }));
+                    let mut park = Step::after(rng.below(3) * rng.below(2_000), Op::PullBg { slot: my, sub: sub.clone(), max: *rng.pick(&[1i32, 1, 2, 1000]) });
+                    if cancel && rng.chance(300) {
+                        // the consumer goes away at its k-th real suspension: waiting for the first
+                        // answer, parked, or - after being woken - waiting for the answer to its next pull
+                        park.abandon_at = *rng.pick(&[1u32, 2, 3, 3, 3, 4, 5]);
+                    }
+                    s.push(park);
                     if cancel && rng.chance(250) {
                         s.push(Step::after(rng.below(3) * rng.below(3_000), Op::CancelBg { slot: my }));
                     }
@@ -826,7 +832,9 @@ pub fn f_cancel(seed: u64) -> Plan {
     let mut plan = Plan { seed, family: "cancel".into(), final_drain: true, health_probe: true, ..Default::default() };
     plan.tags.push("cancel".into());
     plan.tags.push("audit_lists".into());
-    plan.knobs = knobs(&mut rng, false, 0);
+    // stalls on: an actor that is slow for a few ms keeps a mailbox full / a fan-out half done
+    // long enough for a client to disconnect in the middle of it
+    plan.knobs = knobs(&mut rng, true, 0);
     let kind = rng.below(CANCEL_KINDS);
     let k = *rng.pick(&[1u32, 1, 1, 1, 1, 1, 2, 2, 2, 2, 3, 3, 3, 4, 5, 6]);
     let saturated = rng.chance(500);
@@ -866,11 +874,16 @@ pub fn f_cancel(seed: u64) -> Plan {
     };
     let mut scripts: Vec<Vec<Step>> = Vec::new();
     let mut target = Step::after(rng.below(3) * rng.below(200), target_op);
-    target.abandon_at = k;
+    if rng.chance(700) {
+        target.abandon_at = k;
+    } else {
+        // the client disconnects a few (virtual) ms into the request, wherever it is waiting then
+        target.abandon_after_us = rng.range(1, 6) * 1_000;
+    }
     // saturation: a burst at the actor the target talks to (topic actor for topic-side requests)
     if saturated {
         let n = rng.range(17, 30);
-        let topic_side = matches!(kind, 1 | 3 | 6 | 11);
+        let topic_side = matches!(kind, 1 | 3 | 11) || (kind == 6 && rng.chance(400));
         for _ in 0..n {
             let op = if topic_side {
                 match rng.below(3) {
@@ -892,6 +905,18 @@ pub fn f_cancel(seed: u64) -> Plan {
         for _ in 0..rng.range(0, 3) {
             scripts.push(vec![Step::after(rng.below(300), Op::Publish { topic: topic.clone(), msgs: msgs(&mut rng, 1, false) })]);
         }
+    }
+    // A Publish that is abandoned in the middle of its fan-out: one subscription's mailbox is
+    // saturated and its actor is slow, so the fan-out is half done for a few ms; the publisher
+    // disconnects inside that window.
+    if kind == 6 && saturated && rng.chance(500) {
+        plan.knobs.site_mask = ALL_SITES;
+        plan.knobs.stall_permille = *rng.pick(&[150u32, 300]);
+        plan.knobs.stall_max_us = 8_000;
+        plan.knobs.yield_permille = plan.knobs.yield_permille.max(150);
+        plan.knobs.max_yields = plan.knobs.max_yields.max(1);
+        target.abandon_at = 0;
+        target.abandon_after_us = rng.range(1, 8) * 1_000;
     }
     let pos = rng.below(scripts.len() as u64 + 1) as usize;
     scripts.insert(pos, vec![target]);
@@ -959,6 +984,12 @@ pub fn f_hostile(seed: u64) -> Plan {
         "projects/é/topics/short".into(),
         "projects/odd/topics/name with spaces and / slashes".into(),
     ];
+    // page tokens: undecodable ones, and decodable ones the server never issued (offsets past the end)
+    let tokens: Vec<String> = {
+        use base64::Engine;
+        let enc = |v: u64| base64::engine::general_purpose::STANDARD.encode(v.to_ne_bytes());
+        vec![String::new(), "@@@".into(), "AAAA".into(), "%%%".into(), "AAAAAAAAAAAA".into(), enc(0), enc(1), enc(2), enc(3), enc(5), enc(1000), enc(u64::MAX), enc(u64::MAX - 1), enc(1 << 33), enc(rng.next())]
+    };
     let bad_acks: Vec<String> = vec![String::new(), "abc".into(), "-1".into(), "1.5".into(), " 7".into(), "7 ".into(), "99999999999999999999999999".into(), "0x10".into(), "١٢٣".into()];
     let odd_acks: Vec<String> = vec!["+5".into(), "0007".into(), "18446744073709551615".into(), "18446744073709551616".into()];
     let mut scripts: Vec<Vec<Step>> = Vec::new();
@@ -994,12 +1025,28 @@ pub fn f_hostile(seed: u64) -> Plan {
                     }
                     Op::Ack { sub: sub.clone(), sel: Sel { mine: false, pick: Pick::All, extra: ids, ..Sel::none() } }
                 }
-                15 | 16 => Op::ModAck { sub: sub.clone(), sel: Sel { mine: false, pick: Pick::All, extra: vec![rng.pick(&bad_acks).clone()], ..Sel::none() }, secs: *rng.pick(&[0i32, 30]) },
+                15 => Op::ModAck { sub: sub.clone(), sel: Sel { mine: false, pick: Pick::All, extra: vec![rng.pick(&bad_acks).clone()], ..Sel::none() }, secs: *rng.pick(&[0i32, 30]) },
+                // large batches: live ids first, then filler, one malformed id at a drawn position
+                16 => {
+                    let filler = *rng.pick(&[3u32, 499, 500, 501, 600, 1001, 1200]);
+                    let bad_at = Some(*rng.pick(&[0u32, filler / 2, filler, u32::MAX]));
+                    if rng.chance(500) {
+                        Op::Ack { sub: sub.clone(), sel: Sel { mine: false, pick: Pick::All, filler, bad_at, ..Sel::none() } }
+                    } else {
+                        Op::ModAck { sub: sub.clone(), sel: Sel { mine: false, pick: Pick::All, filler, bad_at, ..Sel::none() }, secs: *rng.pick(&[0i32, 30, 600]) }
+                    }
+                }
                 17 => Op::ModAck { sub: sub.clone(), sel: sel_any(Pick::All), secs: *rng.pick(&[-1i32, i32::MIN]) },
                 18 => Op::Ack { sub: sub.clone(), sel: Sel { mine: false, pick: Pick::None, extra: vec![rng.pick(&odd_acks).clone()], ..Sel::none() } },
-                19 => Op::ListPage { kind: ListKind::Topics, parent: rng.pick(&["", "proj-h", "projects", "projectsproj-h", "projects/proj-h"]).to_string(), page_size: *rng.pick(&[-1i32, i32::MIN, 0, 5]), token: rng.pick(&["", "@@@", "AAAA", "AAAAAAAAAAA="]).to_string() },
-                20 => Op::ListPage { kind: ListKind::Subs, parent: "projects/proj-h".into(), page_size: *rng.pick(&[-7i32, 0, i32::MAX]), token: rng.pick(&["", "%%%", "AAAAAAAAAAAA", "AAAAAAAAAAA="]).to_string() },
-                21 => Op::ListPage { kind: ListKind::TopicSubs, parent: name, page_size: 10, token: String::new() },
+                19 => Op::ListPage { kind: ListKind::Topics, parent: rng.pick(&["", "proj-h", "projects", "projectsproj-h", "projects/proj-h"]).to_string(), page_size: *rng.pick(&[-1i32, i32::MIN, 0, 5]), token: rng.pick(&tokens).clone() },
+                20 => Op::ListPage { kind: ListKind::Subs, parent: "projects/proj-h".into(), page_size: *rng.pick(&[-7i32, 0, 3, i32::MAX]), token: rng.pick(&tokens).clone() },
+                21 => {
+                    if rng.chance(500) {
+                        Op::ListPage { kind: ListKind::TopicSubs, parent: name, page_size: 10, token: String::new() }
+                    } else {
+                        Op::ListPage { kind: ListKind::TopicSubs, parent: topic.clone(), page_size: *rng.pick(&[0i32, 1, 1000]), token: rng.pick(&tokens).clone() }
+                    }
+                }
                 22 => {
                     let my = slot;
                     slot += 1;
@@ -1019,12 +1066,15 @@ pub fn f_hostile(seed: u64) -> Plan {
     // a stream that holds deliveries and then receives a bad control message
     if rng.chance(600) {
         let my = slot;
-        let hostile = match rng.below(5) {
+        let hostile = match rng.below(7) {
             0 => Op::StreamSend { slot: my, ack: Sel::none(), modack: Sel::none(), modack_secs: 0, raw_sub: sub2.clone(), raw_max_msgs: 0, raw_max_bytes: 0, extra_secs: vec![], secs_pattern: vec![] },
             1 => Op::StreamSend { slot: my, ack: Sel::none(), modack: Sel::none(), modack_secs: 0, raw_sub: String::new(), raw_max_msgs: 5, raw_max_bytes: 0, extra_secs: vec![], secs_pattern: vec![] },
             2 => Op::StreamSend { slot: my, ack: Sel::none(), modack: Sel::none(), modack_secs: 0, raw_sub: String::new(), raw_max_msgs: 0, raw_max_bytes: 9, extra_secs: vec![], secs_pattern: vec![] },
             3 => Op::StreamSend { slot: my, ack: Sel::none(), modack: sel_any(Pick::LastN(1)), modack_secs: 20, raw_sub: String::new(), raw_max_msgs: 0, raw_max_bytes: 0, extra_secs: vec![30], secs_pattern: vec![] },
-            _ => Op::StreamSend { slot: my, ack: Sel { mine: false, pick: Pick::LastN(2), extra: vec![rng.pick(&bad_acks).clone()], ..Sel::none() }, modack: Sel::none(), modack_secs: 0, raw_sub: String::new(), raw_max_msgs: 0, raw_max_bytes: 0, extra_secs: vec![], secs_pattern: vec![] },
+            4 => Op::StreamSend { slot: my, ack: Sel { mine: false, pick: Pick::LastN(2), extra: vec![rng.pick(&bad_acks).clone()], ..Sel::none() }, modack: Sel::none(), modack_secs: 0, raw_sub: String::new(), raw_max_msgs: 0, raw_max_bytes: 0, extra_secs: vec![], secs_pattern: vec![] },
+            // valid acks of what the stream holds together with a malformed modify entry: the frame is
+            // rejected as a whole, so the acks must not be applied either
+            _ => Op::StreamSend { slot: my, ack: sel_mine(Pick::All), modack: Sel { mine: false, pick: Pick::None, extra: vec![rng.pick(&bad_acks).clone()], ..Sel::none() }, modack_secs: *rng.pick(&[0i32, 30]), raw_sub: String::new(), raw_max_msgs: 0, raw_max_bytes: 0, extra_secs: vec![], secs_pattern: vec![] },
         };
         let mut st = vec![Step::new(Op::StreamOpen { slot: my, sub: sub2.clone(), max_msgs: 0, max_bytes: 0, policy: StreamPolicy::Hold }), Step::after(rng.range(1_000, 50_000), hostile)];
         // mark ack-id-hostile sends as hostile too (the harness flags raw_* and unequal lists itself)
